@@ -33,6 +33,7 @@ def check(run):
     run.check(ok, 'R5.ret', f, rets[0] if rets else 'return', 'the kernel must return the updated (tableau, phases, rank, ...)')
     for rel in (K.PY_S, K.TC_S):
         K.stabilizers_property(run, repo, rel)
+        K.own_rank_bounds(run, repo, rel)
         m = repo.func(rel, 'StabilizerState.measure')
         inout.check_function(run, repo, m, {'stabilizer_measure'})
         bind.check_function_calls(run, repo, m, only={'stabilizer_measure'})
